@@ -99,7 +99,7 @@ created by main.G
 	@FIX@/main.go:19 +0x5c
 `
 
-var numberSpellings = []string{"", "0", "00", "007", "-1", "1e3", "x", "255", "65536", "2147483647", "2147483648", "4294967295", "4294967296",
+var numberSpellings = []string{"", "0", "00", "007", "-1", "1e3", "x", "9", "a", "b", "f", "10", "255", "65536", "2147483647", "2147483648", "4294967295", "4294967296",
 	"9223372036854775807", "9223372036854775808", "18446744073709551615", "18446744073709551616", "99999999999999999999", "340282366920938463463374607431768211456"}
 
 type c03Case struct {
@@ -152,13 +152,19 @@ func robust(x []byte, opts *stack.Opts, html bool) (snaps int, nonEOF bool, err 
 			for _, lvl := range []stack.Similarity{stack.ExactFlags, stack.ExactLines, stack.AnyPointer, stack.AnyValue} {
 				a := snap.Aggregate(lvl)
 				if lvl == stack.AnyPointer && html {
+					// the writer cannot fail: an error is the template engine reporting a
+					// panic in a method it called (it recovers them)
 					var b bytes.Buffer
-					_ = a.ToHTML(&b, template.HTML(""))
+					if err := a.ToHTML(&b, template.HTML("")); err != nil {
+						return snaps, nonEOF, fmt.Errorf("Aggregated.ToHTML into a buffer failed: %v", err)
+					}
 				}
 			}
 			if html {
 				var b bytes.Buffer
-				_ = snap.ToHTML(&b, template.HTML(""))
+				if err := snap.ToHTML(&b, template.HTML("")); err != nil {
+					return snaps, nonEOF, fmt.Errorf("Snapshot.ToHTML into a buffer failed: %v", err)
+				}
 			}
 		}
 		if e != nil {
